@@ -140,11 +140,24 @@ def calls_for(rng, pd, o, budget):
     for cmb in combos:
         kws.append(("combo", list(cmb)))
     rootc = [list(c) for c in combos if all(n not in outs for n in c)]
-    for f in pd["funcs"]:
+    prod = {x: f for f in pd["funcs"] for x in f["outs"]}
+    needed, stack = [], [o]
+    while stack:                                   # functions o depends on (through unbound parameters)
+        f = prod.get(stack.pop())
+        if f is not None and f not in needed:
+            needed.append(f)
+            stack += [c for c, _ in f["params"] if c not in f["bound"]]
+    read = {c for f in needed for c, _ in f["params"] if c not in f["bound"]}
+    for f in needed:
         if len(f["outs"]) > 1 and rootc:          # supply a strict part of a tuple function's outputs
-            part = [x for x in rng.sample(f["outs"], rng.randint(1, len(f["outs"]) - 1)) if x != o]
-            if part:
-                kws.append(("partial-tuple", list(rootc[0]) + part))
+            used = [x for x in f["outs"] if x in read and x != o]
+            others = [x for x in f["outs"] if x == o or x in read]
+            if used and len(others) > 1:
+                part = rng.sample(used, rng.randint(1, len(used)))
+                if len(part) == len(others):
+                    part = part[:-1]
+                if part:
+                    kws.append(("partial-tuple", list(rootc[0]) + part))
     for _ in range(budget):
         r = rng.random()
         base = list(rng.choice(combos)) if combos and rng.random() < 0.8 else rng.sample(universe, rng.randint(0, len(universe)))
@@ -172,7 +185,7 @@ def calls_for(rng, pd, o, budget):
 
 
 def generate(rng, tier, mult):
-    n_pipes = (40 if tier == "quick" else 2500) * mult
+    n_pipes = (40 if tier == "quick" else 400) * mult
     cases = []
     for _ in range(n_pipes):
         base = pipegen.gen_pipeline(rng)
@@ -207,7 +220,7 @@ def generate(rng, tier, mult):
                 bad = rng.choice(pipegen.root_names(base) + ["nope"])
                 cases.append({"kind": "run", "p": pd, "o": bad, "kw": [], "full": False, "entry": 1, "tag": "badout"})
                 cases.append({"kind": "args", "p": pd, "o": bad})
-    for _ in range((60 if tier == "quick" else 3000) * mult):
+    for _ in range((60 if tier == "quick" else 2000) * mult):
         cases.append({"kind": "graph", "g": _gen_graph(rng)})
     return cases
 
